@@ -67,6 +67,12 @@ def run(ctx):
     for i in range(40 if q else 800):
         d = gen.skewed(rnd, rnd.choice([3000, 50000, 300000]))
         cs.append(dict(fam='skewed', data=d, level=rnd.choice([1, 5, 9]), ultra=False, w=2, env={}, i=len(cs)))
+    # tiny alphabets whose statistics drift from block to block, few workers: every worker builds many tables of the
+    # same small alphabet size one after the other (any state carried from one table to the next would show here)
+    for i in range(24 if q else 400):
+        lvl = rnd.choice([1, 1, 2])
+        d = gen.tiny_alphabet_drift(rnd, rnd.choice([4, 7, 13]) * 100000 * lvl, seg=rnd.choice([50000, 100000]) * lvl)
+        cs.append(dict(fam='tiny-alphabet-drift', data=d, level=lvl, ultra=False, w=rnd.choice([1, 1, 2, 3]), env={}, i=len(cs)))
     core.pmap(lambda c: one(ctx, lb, c), cs)
     # in-process
     try:
